@@ -14,7 +14,10 @@ VERIF = Path(__file__).resolve().parent.parent
 REPO = Path(os.environ.get('VERIF_REPO', '/repo'))
 LEAN = Path(os.environ.get('VERIF_LEAN', str(VERIF / 'lean')))
 DRIVER = LEAN / '.lake' / 'build' / 'bin' / 'amqp_driver'
-EVIDENCE = Path(os.environ.get('VERIF_EVIDENCE', str(VERIF / 'evidence')))
+# evidence/<id>.json belongs to runs against /repo itself: a run against a scratch copy of the repository (seeded mutations,
+# the mutation sweep, experiments with VERIF_REPO=...) writes its evidence next to the replays instead
+_SCRATCH_REPO = REPO.resolve() != Path('/repo')
+EVIDENCE = Path(os.environ.get('VERIF_EVIDENCE', str(VERIF / ('replays/evidence-of-scratch-runs' if _SCRATCH_REPO else 'evidence'))))
 REPLAYS = Path(os.environ.get('VERIF_REPLAYS', str(VERIF / 'replays')))
 CORPUS = VERIF / 'corpus'
 KNOWN = VERIF / 'known_findings.json'
@@ -356,7 +359,7 @@ class Report:
         }
         if self.infra_errors:
             ev['coverage']['infrastructure_errors'] = self.infra_errors[:10]
-        EVIDENCE.mkdir(exist_ok=True)
+        EVIDENCE.mkdir(parents=True, exist_ok=True)
         (EVIDENCE / ('%s.json' % self.prop)).write_text(json.dumps(ev, indent=1, default=str))
         for l in out_lines:
             print(l)
